@@ -44,11 +44,12 @@ Definition normalize (o : op) (ob : option (list ip)) : option (list ip) :=
   match o with OUnassign _ | OSetPools _ => Some [] | _ => ob end.
 
 (* the transcription of the selection algorithm (Model/AllocRef.v, proved to refine
-   [allocate_spec]) run next to the implementation: with the chosen pool moved to
-   the front of the unobservable map order it must return exactly the pool and
-   the addresses the implementation returned, and fail exactly when it failed *)
+   [allocate_spec]) run next to the implementation: with the chosen pool favoured
+   in the unobservable map order it must choose the same POOL, and fail exactly
+   when the implementation failed.  Which free address of that pool is taken is
+   not compared: the property does not fix it (offer_ok validates it) *)
 Definition same_choice (x : option (poolid * list ip)) (pn : poolid) (ips : list ip) : bool :=
-  match x with Some (pn', ips') => (pn =? pn') && ips_eqb ips ips' | None => false end.
+  match x with Some (pn', _) => pn =? pn' | None => false end.
 Definition ref_ok (a : st) (o : op) : bool :=
   match o with
   | OAllocate s r c =>
